@@ -15,7 +15,8 @@ CONSTANTS
   MaxDepth,   \* plies played from each start position; 999 = unbounded (closed families)
   Lemmas,     \* 0: none, 1: cheap spec-level invariants, 2: + mirror / flip commutation
   Emit,       \* TRUE: print a REC line per expanded state
-  Sub         \* family-specific size knob (file pair / subset selector); 0 = everything
+  Sub,        \* family-specific size knob (file pair / subset selector); 0 = everything
+  San         \* TRUE: records carry the SAN spellings of every legal move and texts to be rejected
 
 VARIABLES pos, stage, depth, ld
 vars == <<pos, stage, depth, ld>>
@@ -57,6 +58,14 @@ StageSquares(i, b) ==
            [] i = 4 -> IF Family = "EPb" THEN Squares ELSE (IF Sub = 0 THEN {0, 7, 56, 63, 34, 37} ELSE {0, 63})
            [] i = 5 -> AlignedWith({s - 16 : s \in Where(b, "p")} \cup Where(b, "P")))
     [] Family = "CASTLE" -> IF i <= 6 THEN {<<4, 0, 7, 60, 56, 63>>[i]} ELSE Squares
+    [] Family = "RAND" -> Squares
+    [] Family \in {"PINw", "PINb"} ->      \* king - own man - enemy slider on one line (built for White, mirrored for PINb)
+        (CASE i = 1 -> IF Sub = 0 THEN Squares ELSE FilesOf({(Sub - 1) % 8})            \* K
+           [] i = 2 -> AlignedWith(Where(b, "K"))                                          \* own man X
+           [] i = 3 -> LET k == CHOOSE q \in Squares : b[q] = "K"                          \* enemy slider beyond X
+                           x == CHOOSE q \in Squares : b[q] \notin {Empty, "K"}
+                       IN {t \in Squares : Aligned(k, t) /\ x \in Between(k, t)}
+           [] i = 4 -> {0, 7, 56, 63, 27})                                                 \* k
     [] OTHER -> {}
 
 StageMen ==
@@ -73,15 +82,20 @@ StageMen ==
     [] Family = "EPb" -> << {"p"}, {"P"}, {"K"}, {"k"} >>
     [] Family = "EPXw" -> << {"P"}, {"p"}, {"k"}, {"K"}, {"R","B","Q"} >>
     [] Family = "EPXb" -> << {"p"}, {"P"}, {"K"}, {"k"}, {"r","b","q"} >>
+    [] Family = "RAND" -> << {"K"}, {"k"} >> \o [j \in 1..(IF Sub = 0 THEN 8 ELSE Sub) |-> Men \ {"K", "k"}]
+    [] Family \in {"PINw", "PINb"} -> << {"K"}, {"P","N","B","R","Q"}, {"b","r","q"}, {"k"} >>
     [] Family = "CASTLE" -> << {"K"}, {"R"}, {"R"}, {"k"}, {"r"}, {"r"},
                                IF Sub = 0 THEN {"Q","R","B","N","q","r","b","n"}
                                ELSE IF Sub = 1 THEN {"Q","n"} ELSE {"q","N","B","r"} >>
     [] OTHER -> << >>
 NStages == Len(StageMen)
 
+MirroredFamilies == {"PINb"}     \* built with White's men, then colour-mirrored
+
 StmChoices ==
   CASE Family \in {"EPw","EPXw"} -> {"w"}
     [] Family \in {"EPb","EPXb"} -> {"b"}
+    [] Family \in {"PINw","PINb"} -> {"w"}
     [] OTHER -> {"w","b"}
 
 RightsChoices(b) ==
@@ -149,6 +163,7 @@ PlaceNext ==
   /\ Staged /\ stage < NStages
   /\ \E s \in StageSquares(stage + 1, pos.b) : \E p \in StageMen[stage + 1] :
         /\ pos.b[s] = Empty
+        /\ (Kind(p) = "p") => RankOf(s) \in 1..6
         /\ pos' = [pos EXCEPT !.b[s] = p]
   /\ stage' = stage + 1
   /\ UNCHANGED <<depth, ld>>
@@ -156,7 +171,8 @@ PlaceNext ==
 Finish ==
   /\ Staged /\ stage = NStages
   /\ \E c \in StmChoices : \E r \in RightsChoices(pos.b) :
-        LET p == [pos EXCEPT !.stm = c, !.cr = r]
+        LET p0 == [pos EXCEPT !.stm = c, !.cr = r]
+            p  == IF Family \in MirroredFamilies THEN Mirror(p0) ELSE p0
         IN IF Valid(p) THEN pos' = p ELSE FALSE   \* IF: a guard, not an action disjunction
   /\ stage' = Done
   /\ UNCHANGED <<depth, ld>>
@@ -165,10 +181,11 @@ Finish ==
 (* The record printed per expanded state.                                  *)
 (***************************************************************************)
 Diff(b, b2) == {<<s, b2[s]>> : s \in {s \in Squares : b[s] # b2[s]}}
-(* a move entry: <<from, to, promo, changed squares, rights lost, allowed ep values>> *)
+(* a move entry: <<from, to, promo, changed squares, rights lost, allowed ep values,  *)
+(*                 checkers of the successor, pinned men of the successor>>            *)
 MoveRec(p, m) ==
   LET n == ApplyEp(p, m, NoSq)
-  IN <<m.f, m.t, m.p, Diff(p.b, n.b), p.cr \ n.cr, EpAllowed(p, m)>>
+  IN <<m.f, m.t, m.p, Diff(p.b, n.b), p.cr \ n.cr, EpAllowed(p, m), Checkers(n), PinnedRay(n.b, n.stm)>>
 
 (* The placement travels inside "fen" (the replayer decodes it; Lemma1      *)
 (* asserts ReadFen(WriteFen(p)) = p, so the text determines the board).     *)
@@ -181,6 +198,9 @@ Record(p, l, dep, ms) ==
       fa  |-> {FenFrom(pl, p, e, "") : e \in FenEpAllowed(p, l)},
       nul |-> NullAllowed(p),
       mv  |-> {MoveRec(p, m) : m \in ms}]
+     @@ (IF San THEN [san |-> {<<m.f, m.t, m.p, SanSpellings(p, m, ms)>> : m \in ms},
+                      rej |-> SanRejects(p, ms)]
+         ELSE << >>)
 
 EmitRec(p, l, dep, ms) == IF Emit THEN PrintT("REC " \o ToJson(Record(p, l, dep, ms))) ELSE TRUE
 
@@ -213,6 +233,7 @@ Lemma1(p, ms) ==
   /\ Cardinality(Checkers(p)) <= 2                                    \* C03
   /\ (Checkers(p) # {}) = InCheck(p.b, p.stm)                         \* C03
   /\ Pinned(p) \subseteq MenOf(p.b, p.stm) \ {KingSq(p.b, p.stm)}     \* C03
+  /\ PinnedRay(p.b, p.stm) = Pinned(p)                               \* C03: two formulations agree
   /\ (StatusOf(p, ms) = "Checkmate") => InCheck(p.b, p.stm)           \* C04
   /\ (StatusOf(p, ms) = "Ongoing") = (ms # {})                        \* C04
   /\ \A m \in ms :                                                    \* C02, C05
